@@ -44,6 +44,9 @@ type SyncEnv struct {
 	Tools []*simrt.Proc
 	DS    *dbSync.DbSyncer
 	Node  slot.SyncNode
+	// Phase of the tool (base.Status) when each target connection was opened, by server endpoint id
+	ConnPhase  map[int]string
+	TgtClients []*simnet.Conn // the tool's endpoints of its target connections, in dial order
 }
 
 // NewSyncEnv builds the peers; configuration must already be in conf.Options.
@@ -54,6 +57,11 @@ func NewSyncEnv(c *core.Ctx, s *simrt.Sim, lc *env.LogCapture) *SyncEnv {
 	e.Src.Password = srcPassword
 	e.Tgt = modelredis.NewServer(s, e.Net, "target", tgtAddr)
 	e.Tgt.Password = tgtPassword
+	e.ConnPhase = map[int]string{}
+	e.Tgt.L.OnAccept = func(cl, sv *simnet.Conn) {
+		e.ConnPhase[sv.ID] = base.Status
+		e.TgtClients = append(e.TgtClients, cl)
+	}
 	conf.Options.SourceAddressList = []string{srcAddr}
 	conf.Options.TargetAddressList = []string{tgtAddr}
 	conf.Options.SourcePasswordRaw = srcPassword
@@ -446,5 +454,25 @@ func (e *SyncEnv) Diag() []string {
 	out = append(out, e.LC.Tail(60)...)
 	out = append(out, "---- tasks")
 	out = append(out, e.S.TaskStates()...)
+	return out
+}
+
+// IncrLog returns the commands applied on incremental-phase connections, minus the tool's bookkeeping.
+func (e *SyncEnv) IncrLog() []modelredis.Applied {
+	var out []modelredis.Applied
+	for _, a := range e.Tgt.Applied {
+		if ph := e.ConnPhase[a.NetID]; ph != "incr" && ph != "reopen" {
+			continue // null/waitfull: checkpoint loader; full: restore workers
+		}
+		switch a.Name() {
+		case "select", "ping":
+			continue
+		case "hset":
+			if len(a.Args) >= 2 && bytes.HasPrefix(a.Args[1], []byte("redis-shake-checkpoint")) {
+				continue
+			}
+		}
+		out = append(out, a)
+	}
 	return out
 }
